@@ -12,7 +12,7 @@ from sqlfluff.core.templaters.base import TemplatedFile
 KNOWN = {}
 
 
-def _nlstr(c, K, name="n"):
+def _nlstr(c, K, name="n", J=0):
     n = c.declare(name, z3.Int(name))
     c.assume(n >= 0)
     ps, prev = [], -1
@@ -21,13 +21,21 @@ def _nlstr(c, K, name="n"):
         c.assume(z3.And(p > prev, p < n))
         prev = p
         ps.append(p)
-    return n, ps, NLStr(n, [SymInt(p) for p in ps])
+    qs, prev = [], -1
+    for j in range(J):   # other line-break characters (form feed ...), at positions distinct from the newlines
+        q = c.declare(f"q{j}", z3.Int(f"q{j}"))
+        c.assume(z3.And(q > prev, q < n, *[q != p for p in ps]))
+        prev = q
+        qs.append(q)
+    return n, ps, NLStr(n, [SymInt(p) for p in ps], [SymInt(q) for q in qs])
 
 
-def make_linepos(K, source):
+def make_linepos(K, source, J=0):
     def factory(excluded=frozenset()):
+        tb.len = sym_len
+
         def harness(c):
-            n, ps, s = _nlstr(c, K)
+            n, ps, s = _nlstr(c, K, J=J)
             off = fresh_int(c, "off", 0)
             c.assume(off.e <= n)
             nls = list(tb.iter_indices_of_newlines(s))  # REAL newline scan over the abstract text
@@ -49,12 +57,15 @@ def make_linepos(K, source):
     return factory
 
 
-def replay_linepos(K, source):
+def replay_linepos(K, source, J=0):
     def replay(cex):
+        if "len" in vars(tb):
+            del tb.len
         n = int(cex["n"])
         ps = [int(cex[f"p{i}"]) for i in range(K)]
+        qs = [int(cex[f"q{j}"]) for j in range(J)]
         off = int(cex["off"])
-        text = "".join("\n" if i in ps else "x" for i in range(n))
+        text = "".join("\n" if i in ps else "\x0c" if i in qs else "x" for i in range(n))
         tf = TemplatedFile(source_str=text, fname="f") if source else None
         if not source:
             tf = TemplatedFile.from_string(text)
@@ -62,6 +73,10 @@ def replay_linepos(K, source):
         exp = (1 + text[:off].count("\n"), off - (text.rfind("\n", 0, off)))
         if tuple(got) != exp:
             return f"text={text!r} offset={off}: get_line_pos_of_char_pos -> {got}, expected {exp}"
+        idx = list(tb.iter_indices_of_newlines(text))
+        want = [i for i, ch in enumerate(text) if ch == "\n"]
+        if idx != want:
+            return f"text={text!r}: newline index {idx} != positions of the newlines {want} (every later line/column is off)"
         return None
     return replay
 
@@ -122,5 +137,14 @@ def units(tier, seed):
             make=make_infer(K), replay=replay_infer(K),
             stubs=["raw = NLStr abstraction (len, split('\\n'))", "markers.len = sym_len"],
             outside=[f"raws with more than {kmax} newlines"],
+            sharded=False, timeout_s=300))
+    for K in ([0, 1, 2] if tier == "quick" else [0, 1, 2, 3, 4]):
+        us.append(Unit(
+            name=f"c31.linepos[K={K},+1 non-LF line break,source]",
+            functions=["sqlfluff.core.templaters.base.iter_indices_of_newlines", "TemplatedFile.get_line_pos_of_char_pos"],
+            bounds={"newlines": K, "other line-break characters (form feed etc.)": 1, "text_length": "unbounded"},
+            make=make_linepos(K, True, J=1), replay=replay_linepos(K, True, J=1),
+            stubs=["text = NLStr: length, newline positions and the position of one character that str.splitlines() treats as a "
+                   "line boundary but that is not a newline"],
             sharded=False, timeout_s=300))
     return us
